@@ -86,7 +86,8 @@ pub fn run(f: &[&str]) -> String {
                     let byv = serde_json::from_value::<Map<String, Value>>(v.clone());
                     let byr = Map::<String, Value>::deserialize(v);
                     match (v, &byv, &byr) {
-                        (Value::Object(o), Ok(a), Ok(b)) if a == o && b == o => {}
+                        // (under arbitrary_precision from_value re-spells number literals: known finding F19, decided by C16's own family; only acceptance is compared there)
+                        (Value::Object(o), Ok(a), Ok(b)) if cfg!(feature = "arbitrary_precision") || (a == o && b == o) => {}
                         (Value::Object(_), _, _) => diffs.push("Map-target-from-Value"),
                         (_, Err(_), Err(_)) => {}
                         _ => diffs.push("Map-target-from-Value-accepts-non-object"),
